@@ -187,14 +187,14 @@ def unit_primitives(ctx, reps):
 
 def units(tier):
     q = tier == 'quick'
-    reps = 2 if q else 24
+    reps = 2 if q else 100
     us = [{'name': 'enum-' + m, 'fn': 'unit_enum', 'kwargs': {'mode': m, 'reps': reps}} for m in ('encrypt', 'decrypt')]
     if not q:
         # split the thorough enumeration over more processes
         us = [{'name': 'enum-%s-%d' % (m, i), 'fn': 'unit_enum_shard', 'kwargs': {'mode': m, 'reps': reps // 6, 'shard': i}} for m in ('encrypt', 'decrypt') for i in range(6)]
-    us.append({'name': 'primitives', 'fn': 'unit_primitives', 'kwargs': {'reps': 20 if q else 400}})
-    for i in range(2 if q else 4):
-        us.append({'name': 'generated-%d' % i, 'fn': 'unit_generated', 'kwargs': {'n': 400 if q else 5000}})
+    us.append({'name': 'primitives', 'fn': 'unit_primitives', 'kwargs': {'reps': 20 if q else 2000}})
+    for i in range(2 if q else 8):
+        us.append({'name': 'generated-%d' % i, 'fn': 'unit_generated', 'kwargs': {'n': 400 if q else 12000}})
     return us
 
 
